@@ -114,7 +114,7 @@ Qed.
 
 Lemma upd_cond_mem : forall dst ktu k, memk k ktu = true -> upd_cond dst ktu k = true.
 Proof.
-  intros dst ktu k H. unfold upd_cond. rewrite H, orb_true_r, andb_true_r.
+  intros dst ktu k H. unfold upd_cond. rewrite H, orb_true_r. cbn [orb]. rewrite andb_true_r.
   apply existsb_exists. apply memk_In in H. exists k. split; [assumption|apply String.eqb_refl].
 Qed.
 
@@ -207,7 +207,7 @@ Proof.
   intros l x H. cbn in H. apply andb_true_iff in H as [H1 H2].
   cbn [leaves spec_run fwd]. unfold fwd_leaf, apply_leaf. rewrite read_all_eread.
   destruct (eread (ins l) (env_of x)) as [args|]; cbn.
-  - destruct (linpl l); try discriminate. unfold hook. destruct (lsel l); [discriminate|].
+  - destruct (linpl l); try discriminate. unfold sel_vals. destruct (lsel l); [discriminate|].
     eexists; split; [reflexivity|]. apply env_of_write_all.
   - eexists; reflexivity.
 Qed.
@@ -266,6 +266,29 @@ Proof.
     + right. destruct (is_sink (fst kv)); [assumption|]. unfold eupd. now destruct (key_eqb k (fst kv)).
 Qed.
 
+Lemma ewrite_filter_agree : forall (p : key * term -> bool) kvs e1 e2 k,
+  (forall kv, fst kv = k -> p kv = true) ->
+  (List.In k (map fst kvs) /\ is_sink k = false) \/ e1 k = e2 k -> ewrite (filter p kvs) e1 k = ewrite kvs e2 k.
+Proof.
+  intros p. unfold ewrite. induction kvs as [|kv r IH]; intros e1 e2 k Hp H; cbn.
+  - destruct H as [[[] _]|H]; assumption.
+  - destruct (key_dec (fst kv) k) as [E|E].
+    + rewrite (Hp kv E). cbn [fold_left]. apply IH; [assumption|]. subst k.
+      destruct (is_sink (fst kv)) eqn:Hs.
+      * destruct H as [[_ H]|H]; [congruence|now right].
+      * right. unfold eupd. now rewrite key_eqb_refl.
+    + assert (Hr : (List.In k (map fst r) /\ is_sink k = false) \/
+                   e1 k = (if is_sink (fst kv) then e2 else eupd e2 (fst kv) (snd kv)) k).
+      { destruct H as [[[H|H] Hs]|H]; [contradiction|left; now split|right].
+        destruct (is_sink (fst kv)); [assumption|]. unfold eupd.
+        destruct (key_eqb k (fst kv)) eqn:E2; [apply key_eqb_eq in E2; congruence|assumption]. }
+      destruct (p kv); cbn [fold_left].
+      * apply IH; [assumption|]. destruct Hr as [Hr|Hr]; [now left|right].
+        destruct (is_sink (fst kv)); [assumption|]. unfold eupd in *.
+        destruct (key_eqb k (fst kv)) eqn:E2; [apply key_eqb_eq in E2; congruence|assumption].
+      * apply IH; assumption.
+Qed.
+
 Lemma fst_leaf_vals : forall l args, map fst (leaf_vals l args) = outs l.
 Proof.
   intros l args. unfold leaf_vals.
@@ -294,13 +317,14 @@ Proof.
   destruct (eread (ins l) (env_of x)) as [args|]; [|discriminate]. inversion HS; subst e'; clear HS.
   assert (W : forall d k v, List.In k (out_keys (Leaf l)) -> k <> sink ->
                 ewrite (leaf_vals l args) (env_of x) k = Some v ->
-                get k (hook l (write_all (leaf_vals l args) d)) = Some v).
+                get k (write_all (sel_vals l (leaf_vals l args)) d) = Some v).
   { intros d k v Hk Hs Hv. cbn in Hk. pose proof (leaf_out_sub l HB k Hk) as Hko.
-    assert (G : get k (write_all (leaf_vals l args) d) = Some v).
-    { change (env_of (write_all (leaf_vals l args) d) k = Some v). rewrite env_of_write_all.
-      rewrite <- Hv. apply ewrite_agree. left. rewrite fst_leaf_vals. split; [assumption|now apply sink_neq]. }
-    unfold hook. unfold leaf_out in Hk. destruct (lsel l) as [s|]; [|assumption].
-    rewrite get_select. rewrite memk_app. rewrite (proj2 (memk_In k s) Hk). now rewrite orb_true_r. }
+    change (env_of (write_all (sel_vals l (leaf_vals l args)) d) k = Some v). rewrite env_of_write_all.
+    rewrite <- Hv. unfold sel_vals, leaf_out in *. destruct (lsel l) as [s|].
+    - apply ewrite_filter_agree.
+      + intros kv E. subst k. now apply memk_In.
+      + left. rewrite fst_leaf_vals. split; [assumption|now apply sink_neq].
+    - apply ewrite_agree. left. rewrite fst_leaf_vals. split; [assumption|now apply sink_neq]. }
   destruct o as [ot|].
   - do 4 eexists. split; [reflexivity|]. split; [reflexivity|]. apply W.
   - destruct (linpl l); do 4 eexists; (split; [reflexivity|]); (split; [reflexivity|]); apply W.
@@ -646,14 +670,17 @@ Qed.
 Definition xa (oc : outcome) : td := match oc with Done x _ _ | Raised x _ => x end.
 Definition oa (oc : outcome) : option td := match oc with Done _ o _ | Raised _ o => o end.
 
-Fixpoint nosel (n : node) : bool :=
+(* no select_out_keys on a SEQUENCE (D142 stays); leaf modules may select *)
+Fixpoint noseqsel (n : node) : bool :=
   match n with
-  | Leaf l => negb (is_some (lsel l))
-  | Seq c ms => negb (is_some (ssel c)) && forallb nosel ms
+  | Leaf l => true
+  | Seq c ms => negb (is_some (ssel c)) && forallb noseqsel ms
   end.
 Definition all_outs (n : node) : list key := flat_map outs (leaves n).
-(* no two distinct keys of the universe share their first component (in particular: only top-level keys) *)
-Definition hdinj (U : list key) : Prop := forall k k', List.In k U -> List.In k' U -> hdk k = hdk k' -> k = k'.
+(* keys sharing their first component are siblings below a nested node: no key is the bare name of a node another key
+   lives under *)
+Definition sibling_ok (U : list key) : Prop :=
+  forall k k', List.In k U -> List.In k' U -> hdk k = hdk k' -> k = k' \/ (nested k = true /\ nested k' = true).
 Definition within (U : list key) (t : td) : Prop := forall k, has k t = true -> List.In k U.
 
 Lemma get_write_all_frame : forall kvs d k, ~ List.In k (map fst kvs) -> get k (write_all kvs d) = get k d.
@@ -666,6 +693,15 @@ Proof.
   intros kvs d k H. destruct (in_dec key_dec k (map fst kvs)) as [HI|HI]; [now right|left].
   unfold has in *. now rewrite get_write_all_frame in H.
 Qed.
+Lemma fst_sel_vals : forall l args k, List.In k (map fst (sel_vals l (leaf_vals l args))) ->
+  List.In k (outs l) /\ List.In k (leaf_out l).
+Proof.
+  intros l args k H. unfold sel_vals, leaf_out in *. destruct (lsel l) as [s|].
+  - apply in_map_iff in H as [kv [E H]]. apply filter_In in H as [H1 H2]. subst k. split.
+    + rewrite <- (fst_leaf_vals l args). now apply in_map.
+    + now apply memk_In.
+  - rewrite fst_leaf_vals in H. now split.
+Qed.
 Lemma has_upd_ktu : forall dst src ktu k, has k (upd_ktu dst src ktu) = true -> has k dst = true \/ has k src = true.
 Proof.
   intros dst src ktu k H. unfold has in H. rewrite get_upd_ktu in H.
@@ -673,18 +709,21 @@ Proof.
   - apply andb_true_iff in C as [_ C]. now right.
   - left. exact H.
 Qed.
-Lemma upd_cond_hd : forall dst ktu k, upd_cond dst ktu k = true -> exists k', List.In k' ktu /\ hdk k' = hdk k.
-Proof.
-  intros dst ktu k H. unfold upd_cond in H. apply andb_true_iff in H as [H _]. apply existsb_exists in H as [k' [Hk E]].
-  exists k'. split; [assumption|]. now apply String.eqb_eq.
-Qed.
-Lemma upd_ktu_frame : forall U dst src ktu k, hdinj U -> within U src -> (forall k', List.In k' ktu -> List.In k' U) ->
+Lemma nested_single : forall f, nested [f] = false.
+Proof. reflexivity. Qed.
+Lemma upd_ktu_frame : forall U dst src ktu k, sibling_ok U -> within U src -> (forall k', List.In k' ktu -> List.In k' U) ->
   ~ List.In k ktu -> get k (upd_ktu dst src ktu) = get k dst.
 Proof.
   intros U dst src ktu k HU Hs Hk Hn. rewrite get_upd_ktu.
   destruct (upd_cond dst ktu k && has k src) eqn:C; [|reflexivity].
-  apply andb_true_iff in C as [C1 C2]. destruct (upd_cond_hd _ _ _ C1) as [k' [Hk' E]].
-  exfalso. apply Hn. rewrite <- (HU k' k (Hk k' Hk') (Hs k C2) E). exact Hk'.
+  apply andb_true_iff in C as [C1 C2]. exfalso. unfold upd_cond in C1. apply andb_true_iff in C1 as [C1 C3].
+  apply existsb_exists in C1 as [k' [Hk' E]]. apply String.eqb_eq in E.
+  assert (Mk : memk k ktu = false) by now apply memk_false. rewrite Mk, orb_false_r in C3.
+  apply orb_true_iff in C3 as [C3|C3].
+  - destruct (HU k' k (Hk k' Hk') (Hs k C2) E) as [->|[_ N]]; [contradiction|]. rewrite N in C3. discriminate.
+  - apply andb_true_iff in C3 as [C3 _]. apply memk_In in C3.
+    destruct (HU [hdk k] k (Hk _ C3) (Hs k C2) eq_refl) as [E2|[N _]]; [|discriminate].
+    apply Hn. now rewrite <- E2.
 Qed.
 
 Lemma out_keys_child : forall ms m k, List.In m ms -> List.In k (out_keys m) -> List.In k (all_out_keys ms).
@@ -692,15 +731,16 @@ Proof.
   intros ms m k Hm Hk. unfold all_out_keys. apply dedup_last_In. fold (iofold ms ([], [])). rewrite iofold_ok.
   cbn. apply in_flat_map. now exists m.
 Qed.
-Lemma out_keys_sub_all_outs : forall n, nosel n = true -> forall k, List.In k (out_keys n) -> List.In k (all_outs n).
+Lemma out_keys_sub_all_outs : forall n, noseqsel n = true -> buildable n = true ->
+  forall k, List.In k (out_keys n) -> List.In k (all_outs n).
 Proof.
-  induction n as [l|c ms IH] using node_ind'; intros HS k Hk.
-  - cbn in HS. unfold out_keys in Hk. cbn in Hk. unfold leaf_out in Hk. destruct (lsel l); [discriminate|].
-    unfold all_outs. cbn. now rewrite app_nil_r.
+  induction n as [l|c ms IH] using node_ind'; intros HS HB k Hk.
+  - unfold all_outs. cbn. rewrite app_nil_r. now apply (leaf_out_sub l HB).
   - cbn in HS. apply andb_true_iff in HS as [H1 H2]. destruct (ssel c) eqn:Es; [discriminate|].
+    cbn in HB. apply andb_true_iff in HB as [HB _].
     unfold out_keys in Hk. cbn [io snd] in Hk. rewrite Es in Hk. apply (proj1 (dedup_last_In _ _)) in Hk.
     fold (iofold ms ([], [])) in Hk. rewrite iofold_ok in Hk. cbn in Hk. apply in_flat_map in Hk as [m [Hm Hk]].
-    rewrite Forall_forall in IH. rewrite forallb_forall in H2. specialize (IH m Hm (H2 m Hm) k Hk).
+    rewrite Forall_forall in IH. rewrite forallb_forall in H2, HB. specialize (IH m Hm (H2 m Hm) (HB m Hm) k Hk).
     unfold all_outs in *. cbn. apply in_flat_map in IH as [l [Hl Ho]].
     apply in_flat_map. exists l. split; [|assumption]. apply in_flat_map. now exists m.
 Qed.
@@ -712,22 +752,20 @@ Definition inner_fp (U : list key) (n : node) : Prop :=
     /\ within U (xa oc)
     /\ (forall x' o' f, oc = Done x' o' (RFresh f) -> within U f).
 
-Lemma inner_fp_leaf : forall U l, nosel (Leaf l) = true -> (forall k, List.In k (outs l) -> List.In k U) -> inner_fp U (Leaf l).
+Lemma inner_fp_leaf : forall U l, (forall k, List.In k (outs l) -> List.In k U) -> inner_fp U (Leaf l).
 Proof.
-  intros U l HS HU x Hx. cbn in HS. cbn [fwd]. unfold fwd_leaf.
-  assert (Eo : out_keys (Leaf l) = outs l).
-  { unfold out_keys. cbn. unfold leaf_out. now destruct (lsel l). }
-  rewrite Eo. unfold hook. destruct (lsel l); [discriminate|].
+  intros U l HU x Hx. cbn [fwd]. unfold fwd_leaf.
+  assert (Eo : out_keys (Leaf l) = leaf_out l) by reflexivity. rewrite Eo.
   destruct (read_all (ins l) x) as [args|]; cbn.
   - destruct (linpl l); cbn.
     + split; [|split].
-      * intros k Hk. apply get_write_all_frame. now rewrite fst_leaf_vals.
-      * intros k Hk. apply has_write_all in Hk as [Hk|Hk]; [now apply Hx|]. rewrite fst_leaf_vals in Hk. now apply HU.
+      * intros k Hk. apply get_write_all_frame. intro HI. apply Hk. now apply (fst_sel_vals l args).
+      * intros k Hk. apply has_write_all in Hk as [Hk|Hk]; [now apply Hx|]. apply HU. now apply (fst_sel_vals l args).
       * intros x' o' f E. discriminate.
     + split; [reflexivity|]. split; [assumption|]. intros x' o' f E. inversion E; subst.
-      intros k Hk. apply has_write_all in Hk as [Hk|Hk]; [discriminate|]. rewrite fst_leaf_vals in Hk. now apply HU.
+      intros k Hk. apply has_write_all in Hk as [Hk|Hk]; [discriminate|]. apply HU. now apply (fst_sel_vals l args).
     + split; [reflexivity|]. split; [assumption|]. intros x' o' f E. inversion E; subst.
-      intros k Hk. apply has_write_all in Hk as [Hk|Hk]; [discriminate|]. rewrite fst_leaf_vals in Hk. now apply HU.
+      intros k Hk. apply has_write_all in Hk as [Hk|Hk]; [discriminate|]. apply HU. now apply (fst_sel_vals l args).
   - split; [reflexivity|]. split; [assumption|]. intros x' o' f E. discriminate.
 Qed.
 
@@ -736,13 +774,13 @@ Definition run_inv (U okeys : list key) (x : td) (st : (td * option td) + (td * 
   let '(cur, sh) := match st with inl p | inr p => p end in
   within U cur /\ within U (inp_of cur sh) /\ (forall k, ~ List.In k okeys -> get k (inp_of cur sh) = get k x).
 
-Lemma run_inv_step : forall U okeys pt ms, hdinj U ->
+Lemma run_inv_step : forall U okeys pt ms,
   Forall (inner_fp U) ms -> (forall m k, List.In m ms -> List.In k (out_keys m) -> List.In k okeys) ->
   forall x cur sh, within U cur -> within U (inp_of cur sh) ->
     (forall k, ~ List.In k okeys -> get k (inp_of cur sh) = get k x) ->
     run_inv U okeys x (run_gen fwd pt ms cur sh).
 Proof.
-  intros U okeys pt ms HU. induction ms as [|m r IH]; intros HF Hsub x cur sh Hc Hi Hg.
+  intros U okeys pt ms. induction ms as [|m r IH]; intros HF Hsub x cur sh Hc Hi Hg.
   - cbn. auto.
   - inversion HF as [|? ? Hm Hr]; subst. cbn [run_gen].
     assert (Hsub' : forall m' k, List.In m' r -> List.In k (out_keys m') -> List.In k okeys) by (intros; eapply Hsub; [right|]; eassumption).
@@ -751,14 +789,13 @@ Proof.
     assert (Fr : forall k, ~ List.In k okeys -> get k (xa (fwd m cur None)) = get k cur).
     { intros k Hk. apply F1. intro HI. apply Hk. eapply Hsub; [now left|eassumption]. }
     destruct (fwd m cur None) as [cur' o' rr|cur' o'] eqn:E; cbn [xa] in *.
-    + assert (Step : forall sh', sh' = sh ->
-                within U (inp_of cur' sh') /\ (forall k, ~ List.In k okeys -> get k (inp_of cur' sh') = get k x)).
-      { intros sh' ->. destruct sh as [s|]; cbn [inp_of] in *; [now split|]. split; [assumption|].
+    + assert (Step : within U (inp_of cur' sh) /\ (forall k, ~ List.In k okeys -> get k (inp_of cur' sh) = get k x)).
+      { destruct sh as [s|]; cbn [inp_of] in *; [now split|]. split; [assumption|].
         intros k Hk. rewrite Fr; auto. }
-      destruct rr as [| |f].
-      * destruct (Step sh eq_refl). now apply IH.
-      * destruct (Step sh eq_refl). now apply IH.
-      * destruct (Step sh eq_refl) as [S1 S2]. apply IH; try assumption.
+      destruct Step as [S1 S2]. destruct rr as [| |f].
+      * now apply IH.
+      * now apply IH.
+      * apply IH; try assumption.
         -- now apply (F3 cur' o' f).
         -- destruct sh; cbn [inp_of] in *; assumption.
         -- destruct sh; cbn [inp_of] in *; assumption.
@@ -766,23 +803,30 @@ Proof.
       split; [assumption|]. intros k Hk. rewrite Fr; auto.
 Qed.
 
-Lemma inner_fp_node : forall U n, hdinj U -> nosel n = true -> (forall k, List.In k (all_outs n) -> List.In k U) -> inner_fp U n.
+Lemma all_outs_child : forall c ms m k, List.In m ms -> List.In k (all_outs m) -> List.In k (all_outs (Seq c ms)).
 Proof.
-  intros U n HU. induction n as [l|c ms IH] using node_ind'; intros HS HO.
-  - apply inner_fp_leaf; [assumption|]. intros k Hk. apply HO. unfold all_outs. cbn. now rewrite app_nil_r.
-  - cbn in HS. apply andb_true_iff in HS as [H1 H2]. destruct (ssel c) eqn:Es; [discriminate|].
+  intros c ms m k Hm Hk. unfold all_outs in *. cbn. apply in_flat_map in Hk as [l [Hl Hk]].
+  apply in_flat_map. exists l. split; [|assumption]. apply in_flat_map. now exists m.
+Qed.
+
+Lemma inner_fp_node : forall U n, sibling_ok U -> noseqsel n = true -> buildable n = true ->
+  (forall k, List.In k (all_outs n) -> List.In k U) -> inner_fp U n.
+Proof.
+  intros U n HU. induction n as [l|c ms IH] using node_ind'; intros HS HB HO.
+  - apply inner_fp_leaf. intros k Hk. apply HO. unfold all_outs. cbn. now rewrite app_nil_r.
+  - pose proof HS as HS0. pose proof HB as HB0.
+    cbn in HS. apply andb_true_iff in HS as [H1 H2]. destruct (ssel c) eqn:Es; [discriminate|].
+    cbn in HB. apply andb_true_iff in HB as [HB _].
     assert (HF : Forall (inner_fp U) ms).
-    { rewrite Forall_forall in *. rewrite forallb_forall in H2. intros m Hm. apply IH; [assumption|now apply H2|].
-      intros k Hk. apply HO. unfold all_outs in *. cbn. apply in_flat_map in Hk as [l [Hl Hk]].
-      apply in_flat_map. exists l. split; [|assumption]. apply in_flat_map. now exists m. }
+    { rewrite Forall_forall in *. rewrite forallb_forall in H2, HB. intros m Hm. apply IH; [assumption|now apply H2|now apply HB|].
+      intros k Hk. apply HO. now apply (all_outs_child c ms m). }
     assert (Hok : forall k, List.In k (all_out_keys ms) -> List.In k U).
-    { intros k Hk. apply HO. apply (out_keys_sub_all_outs (Seq c ms)).
-      - cbn. rewrite Es. cbn. exact H2.
-      - unfold out_keys. cbn [io snd]. rewrite Es. exact Hk. }
+    { intros k Hk. apply HO. apply (out_keys_sub_all_outs (Seq c ms) HS0 HB0).
+      unfold out_keys. cbn [io snd]. rewrite Es. exact Hk. }
     intros x Hx. cbn [fwd]. unfold seq_copied, seq_okeys. rewrite Es. cbn [is_some].
     assert (Eo : out_keys (Seq c ms) = all_out_keys ms) by (unfold out_keys; cbn [io snd]; now rewrite Es).
     rewrite Eo.
-    pose proof (run_inv_step U (all_out_keys ms) (spt c) ms HU HF (out_keys_child ms) x x None Hx Hx (fun k _ => eq_refl)) as Inv.
+    pose proof (run_inv_step U (all_out_keys ms) (spt c) ms HF (out_keys_child ms) x x None Hx Hx (fun k _ => eq_refl)) as Inv.
     unfold run_inv in Inv.
     destruct (run_gen fwd (spt c) ms x None) as [[cur sh]|[cur sh]]; destruct Inv as [I1 [I2 I3]].
     + cbn [finish]. rewrite Es. cbn [is_some].
@@ -803,84 +847,6 @@ Proof.
     + cbn [finish xa]. split; [assumption|]. split; [assumption|]. intros x' o' f E; discriminate.
 Qed.
 
-(* the top module with a tensordict_out: neither the input nor tensordict_out changes outside out_keys *)
-Lemma footprint_partial : forall U n x o, hdinj U -> nosel n = true ->
-  (forall k, List.In k (all_outs n) -> List.In k U) -> within U x ->
-  (forall ot, o = Some ot -> within U ot) ->
-  forall k, ~ List.In k (out_keys n) ->
-    get k (xa (fwd n x o)) = get k x
-    /\ match o, oa (fwd n x o) with
-       | Some ot, Some ot' => get k ot' = get k ot
-       | None, None => True
-       | _, _ => False
-       end.
-Proof.
-  intros U n x o HU HS HO Hx Ho k Hk. destruct o as [ot|].
-  2:{ destruct (inner_fp_node U n HU HS HO x Hx) as [F1 _]. split; [now apply F1|].
-      destruct n as [l|c ms]; cbn [fwd].
-      - unfold fwd_leaf. destruct (read_all (ins l) x); [destruct (linpl l)|]; exact I.
-      - destruct (run_gen fwd (spt c) ms x (if seq_copied c None then Some x else None)) as [[cur sh]|[cur sh]]; cbn [finish oa]; [|exact I].
-        destruct (sinpl c) as [[| |]|]; [destruct sh| | |destruct (is_some (ssel c)); [|destruct sh]]; exact I. }
-  specialize (Ho ot eq_refl).
-  destruct n as [l|c ms].
-  - cbn in HS. cbn [fwd]. unfold fwd_leaf.
-    assert (Eo : out_keys (Leaf l) = outs l).
-    { unfold out_keys. cbn. unfold leaf_out. now destruct (lsel l). }
-    rewrite Eo in Hk. unfold hook. destruct (lsel l); [discriminate|].
-    destruct (read_all (ins l) x); cbn; [|now split]. split; [reflexivity|].
-    apply get_write_all_frame. now rewrite fst_leaf_vals.
-  - cbn in HS. apply andb_true_iff in HS as [H1 H2]. destruct (ssel c) eqn:Es; [discriminate|].
-    assert (HF : Forall (inner_fp U) ms).
-    { apply Forall_forall. rewrite forallb_forall in H2. intros m Hm. apply inner_fp_node; [assumption|now apply H2|].
-      intros k' Hk'. apply HO. unfold all_outs in *. cbn. apply in_flat_map in Hk' as [l [Hl Hk']].
-      apply in_flat_map. exists l. split; [|assumption]. apply in_flat_map. now exists m. }
-    assert (Hok : forall k, List.In k (all_out_keys ms) -> List.In k U).
-    { intros k' Hk'. apply HO. apply (out_keys_sub_all_outs (Seq c ms)).
-      - cbn. rewrite Es. cbn. exact H2.
-      - unfold out_keys. cbn [io snd]. rewrite Es. exact Hk'. }
-    assert (Eo : out_keys (Seq c ms) = all_out_keys ms) by (unfold out_keys; cbn [io snd]; now rewrite Es).
-    rewrite Eo in Hk. cbn [fwd]. unfold seq_copied, seq_okeys. rewrite Es.
-    pose proof (run_inv_step U (all_out_keys ms) (spt c) ms HU HF (out_keys_child ms) x x (Some x) Hx Hx (fun k _ => eq_refl)) as Inv.
-    unfold run_inv in Inv.
-    destruct (run_gen fwd (spt c) ms x (Some x)) as [[cur sh]|[cur sh]]; destruct Inv as [I1 [I2 I3]]; cbn [finish xa oa].
-    + split; [now apply I3|]. rewrite (upd_ktu_frame U); auto.
-    + split; [now apply I3|reflexivity].
-Qed.
-
-(* ------------------------------------------------------------------ where the footprint statement fails today *)
-Definition ka : key := ["a"%string].  Definition kb : key := ["b"%string].  Definition kc : key := ["c"%string].
-Definition kz : key := ["z"%string].
-Definition knx : key := ["n"%string; "x"%string].  Definition kny : key := ["n"%string; "y"%string].
-Definition mk (i : nat) (a b : list key) : leaf := {| mid := i; ins := a; outs := b; lsel := None; linpl := ITrue |}.
-Definition mksel (i : nat) (a b s : list key) : leaf := {| mid := i; ins := a; outs := b; lsel := Some s; linpl := ITrue |}.
-Definition dcfg := default_cfg false.
-
-(* D9: select_out_keys on an in-place module drops the unrelated entry z of the input *)
-Definition d9_node := Leaf (mksel 1 [ka] [kb; kc] [kc]).
-Definition d9_x : td := [(ka, In ka); (kz, In kz)].
-Lemma footprint_refuted_D9 : ~ List.In kz (out_keys d9_node) /\ get kz (xa (fwd d9_node d9_x None)) = None /\ get kz d9_x = Some (In kz).
-Proof. split; [|split; reflexivity]. cbn. intros [H|[]]; discriminate. Qed.
-
-(* D141: the unselected output a is still written because a is also an in_key *)
-Definition d141_node := Leaf (mksel 1 [ka] [ka; kb] [kb]).
-Lemma footprint_refuted_D141 : ~ List.In ka (out_keys d141_node)
-  /\ get ka (xa (fwd d141_node [(ka, In ka)] None)) = Some (App 1 0 [In ka]).
-Proof. split; [|reflexivity]. cbn. intros [H|[]]; discriminate. Qed.
-
-(* D142: a sequence with select_out_keys(c) writes the overwritten input entry a back *)
-Definition d142_node := Seq {| sinpl := None; ssel := Some [kc]; spt := false; sdict := false |}
-                            [Leaf (mk 1 [ka] [ka]); Leaf (mk 2 [ka] [kc])].
-Lemma footprint_refuted_D142 : ~ List.In ka (out_keys d142_node)
-  /\ get ka (xa (fwd d142_node [(ka, In ka)] None)) = Some (App 1 0 [In ka]).
-Proof. split; [|reflexivity]. cbn. intros [H|[]]; discriminate. Qed.
-
-(* D143: update(keys_to_update=[(n,x)]) copies the sibling (n,y) into a tensordict_out that has no node n *)
-Definition d143_node := Seq dcfg [Leaf (mk 1 [ka] [knx])].
-Definition d143_x : td := [(ka, In ka); (kny, In kny)].
-Lemma footprint_refuted_D143 : ~ List.In kny (out_keys d143_node)
-  /\ oa (fwd d143_node d143_x (Some [])) = Some [(kny, In kny); (knx, App 1 0 [In ka])].
-Proof. split; [|reflexivity]. cbn. intros [H|[]]; discriminate. Qed.
-
 Definition footprint_statement (n : node) (x : td) (o : option td) (k : key) : Prop :=
   get k (xa (fwd n x o)) = get k x
   /\ match o, oa (fwd n x o) with
@@ -889,18 +855,73 @@ Definition footprint_statement (n : node) (x : td) (o : option td) (k : key) : P
      | _, _ => False
      end.
 
-Lemma footprint_refuted : exists n x o k, ~ List.In k (out_keys n) /\ ~ footprint_statement n x o k.
+(* the top module with or without a tensordict_out: neither the input nor tensordict_out changes outside out_keys *)
+Lemma footprint_partial : forall U n x o, sibling_ok U -> noseqsel n = true -> buildable n = true ->
+  (forall k, List.In k (all_outs n) -> List.In k U) -> within U x ->
+  (forall ot, o = Some ot -> within U ot) ->
+  forall k, ~ List.In k (out_keys n) -> footprint_statement n x o k.
 Proof.
-  exists d9_node, d9_x, None, kz. destruct footprint_refuted_D9 as [H1 [H2 H3]]. split; [assumption|].
-  intros [H _]. rewrite H2, H3 in H. discriminate.
+  intros U n x o HU HS HB HO Hx Ho k Hk. unfold footprint_statement. destruct o as [ot|].
+  2:{ destruct (inner_fp_node U n HU HS HB HO x Hx) as [F1 _]. split; [now apply F1|].
+      destruct n as [l|c ms]; cbn [fwd].
+      - unfold fwd_leaf. destruct (read_all (ins l) x); [destruct (linpl l)|]; exact I.
+      - destruct (run_gen fwd (spt c) ms x (if seq_copied c None then Some x else None)) as [[cur sh]|[cur sh]]; cbn [finish oa]; [|exact I].
+        destruct (sinpl c) as [[| |]|]; [destruct sh| | |destruct (is_some (ssel c)); [|destruct sh]]; exact I. }
+  specialize (Ho ot eq_refl).
+  destruct n as [l|c ms].
+  - cbn [fwd]. unfold fwd_leaf.
+    assert (Eo : out_keys (Leaf l) = leaf_out l) by reflexivity. rewrite Eo in Hk.
+    destruct (read_all (ins l) x) as [args|]; cbn; [|now split]. split; [reflexivity|].
+    apply get_write_all_frame. intro HI. apply Hk. now apply (fst_sel_vals l args).
+  - pose proof HS as HS0. pose proof HB as HB0.
+    cbn in HS. apply andb_true_iff in HS as [H1 H2]. destruct (ssel c) eqn:Es; [discriminate|].
+    cbn in HB. apply andb_true_iff in HB as [HB _].
+    assert (HF : Forall (inner_fp U) ms).
+    { apply Forall_forall. rewrite forallb_forall in H2, HB. intros m Hm.
+      apply inner_fp_node; [assumption|now apply H2|now apply HB|].
+      intros k' Hk'. apply HO. now apply (all_outs_child c ms m). }
+    assert (Hok : forall k, List.In k (all_out_keys ms) -> List.In k U).
+    { intros k' Hk'. apply HO. apply (out_keys_sub_all_outs (Seq c ms) HS0 HB0).
+      unfold out_keys. cbn [io snd]. rewrite Es. exact Hk'. }
+    assert (Eo : out_keys (Seq c ms) = all_out_keys ms) by (unfold out_keys; cbn [io snd]; now rewrite Es).
+    rewrite Eo in Hk. cbn [fwd]. unfold seq_copied, seq_okeys. rewrite Es.
+    pose proof (run_inv_step U (all_out_keys ms) (spt c) ms HF (out_keys_child ms) x x (Some x) Hx Hx (fun k _ => eq_refl)) as Inv.
+    unfold run_inv in Inv.
+    destruct (run_gen fwd (spt c) ms x (Some x)) as [[cur sh]|[cur sh]]; destruct Inv as [I1 [I2 I3]]; cbn [finish xa oa].
+    + split; [now apply I3|]. rewrite (upd_ktu_frame U); auto.
+    + split; [now apply I3|reflexivity].
 Qed.
-Lemma footprint_refuted_tout : exists n x ot k, ~ List.In k (out_keys n) /\ nosel n = true /\ ~ footprint_statement n x (Some ot) k.
-Proof.
-  exists d143_node, d143_x, [], kny. destruct footprint_refuted_D143 as [H1 H2]. split; [assumption|]. split; [reflexivity|].
-  intros [_ H]. vm_compute in H. discriminate.
-Qed.
+
+(* ------------------------------------------------------------------ where the footprint statement still fails (D142) *)
+Definition ka : key := ["a"%string].  Definition kb : key := ["b"%string].  Definition kc : key := ["c"%string].
+Definition kz : key := ["z"%string].
+Definition knx : key := ["n"%string; "x"%string].  Definition kny : key := ["n"%string; "y"%string].
+Definition mk (i : nat) (a b : list key) : leaf := {| mid := i; ins := a; outs := b; lsel := None; linpl := ITrue |}.
+Definition mksel (i : nat) (a b s : list key) : leaf := {| mid := i; ins := a; outs := b; lsel := Some s; linpl := ITrue |}.
+Definition dcfg := default_cfg false.
+
+(* D142: a sequence with select_out_keys(c) writes the overwritten input entry a back *)
+Definition d142_node := Seq {| sinpl := None; ssel := Some [kc]; spt := false; sdict := false |}
+                            [Leaf (mk 1 [ka] [ka]); Leaf (mk 2 [ka] [kc])].
+Lemma footprint_refuted_D142 : ~ List.In ka (out_keys d142_node)
+  /\ get ka (xa (fwd d142_node [(ka, In ka)] None)) = Some (App 1 0 [In ka]).
+Proof. split; [|reflexivity]. cbn. intros [H|[]]; discriminate. Qed.
+
 Lemma footprint_refuted_seq_select : exists n x k, ~ List.In k (out_keys n) /\ top_regular n = true /\ ~ footprint_statement n x None k.
 Proof.
   exists d142_node, [(ka, In ka)], ka. destruct footprint_refuted_D142 as [H1 H2]. split; [assumption|]. split; [reflexivity|].
   intros [H _]. rewrite H2 in H. discriminate.
 Qed.
+
+(* the former witnesses of D9, D141 and D143 now satisfy the statement *)
+Definition d9_node := Leaf (mksel 1 [ka] [kb; kc] [kc]).
+Definition d9_x : td := [(ka, In ka); (kz, In kz)].
+Lemma footprint_D9_repaired : fwd d9_node d9_x None = Done [(ka, In ka); (kz, In kz); (kc, App 1 1 [In ka])] None RIn.
+Proof. reflexivity. Qed.
+Definition d141_node := Leaf (mksel 1 [ka] [ka; kb] [kb]).
+Lemma footprint_D141_repaired : fwd d141_node [(ka, In ka)] None = Done [(ka, In ka); (kb, App 1 1 [In ka])] None RIn.
+Proof. reflexivity. Qed.
+Definition d143_node := Seq dcfg [Leaf (mk 1 [ka] [knx])].
+Definition d143_x : td := [(ka, In ka); (kny, In kny)].
+Lemma footprint_D143_repaired : oa (fwd d143_node d143_x (Some [])) = Some [(knx, App 1 0 [In ka])].
+Proof. reflexivity. Qed.
